@@ -17,19 +17,19 @@ open Cstruct Cstruct.Instance Cstruct.Core
     fields are equal. -/
 theorem c17_eq_iff (a b : Inst) (hlen : a.vals.length = b.vals.length) :
     a.eq b = true ↔ a.cls = b.cls ∧ ∀ i (h : i < a.vals.length), veq a.vals[i] (b.vals[i]'(hlen ▸ h)) = true := by
-  sorry
+  exact Lemmas.eq_iff a b hlen
 
 /-- `veq` is reflexive and symmetric on values, hence instance equality is reflexive and symmetric. -/
 theorem c17_eq_refl_symm (a b : Inst) : a.eq a = true ∧ a.eq b = b.eq a := by
-  sorry
+  exact ⟨Lemmas.eq_refl a, Lemmas.eq_symm a b⟩
 
 /-- **Equal field tuples hash equally**: the hash is a function of the field values alone. -/
 theorem c17_hash (a b : Inst) (h : a.vals = b.vals) : a.hashKey = b.hashKey := by
-  sorry
+  unfold Inst.hashKey; exact h
 
 /-- **An instance is falsy exactly when all its fields are.** -/
 theorem c17_bool_iff (a : Inst) : a.bool = false ↔ ∀ v ∈ a.vals, v.truthy = false := by
-  sorry
+  exact Lemmas.bool_iff a
 
 /-- **Constructing from positional or keyword values equals assigning those fields on a default instance**, unspecified
     fields taking the type's default. -/
@@ -39,7 +39,7 @@ theorem c17_init (cls : Nat) (names : List String) (defaults args : List Val) (k
       kwargs.foldl (fun (x : Inst) (kv : String × Val) => match indexOf names kv.1 with | some i => x.set i kv.2 | none => x)
         ((List.range args.length).foldl (fun (x : Inst) i => x.set i (args.getD i .void)) (init cls names defaults [] [])) ∧
     (init cls names defaults [] []).vals = defaults := by
-  sorry
+  exact ⟨Lemmas.init_eq cls names defaults args kwargs hd ha, Lemmas.init_default cls names defaults hd⟩
 
 /-- member number `k` of a field list / value list -/
 def nthTy : Fields → Nat → Option Ty
@@ -62,6 +62,12 @@ theorem c17_assign_local (cfg : Cfg) (al : Bool) (fs : Fields) (hS : (Ty.struct 
     (hl : structLayout cfg al fs = .ok (sz, a, offs)) (hoff : offs[k]? = some (some off)) (hn : t.size cfg = some n) :
     ∃ b1 b2, dumps cfg (.struct al fs) (.record vs) = .ok b1 ∧ dumps cfg (.struct al fs) (.record (setNthV vs k v)) = .ok b2 ∧
       b1.length = b2.length ∧ ∀ i, (i < off ∨ off + n ≤ i) → b1[i]? = b2[i]? := by
-  sorry
+  have e1 : nthTy fs k = Lemmas.nTy fs k :=
+    Lemmas.nTy_unique nthTy (fun _ => rfl) (fun _ _ _ _ _ => rfl) (fun _ _ _ _ _ _ => rfl) fs k
+  have e2 : setNthV vs k v = Lemmas.setV vs k v :=
+    Lemmas.setV_unique setNthV (fun _ _ => rfl) (fun _ _ _ => rfl) (fun _ _ _ _ => rfl) vs k v
+  rw [e1] at ht
+  rw [e2]
+  exact Lemmas.assign_local cfg al fs hS hu hp vs hv k t ht v hvk off n offs sz a hl hoff hn
 
 end Cstruct.C17
